@@ -105,7 +105,7 @@ def configs(tier):
         add(2, 3, KINDS, None)
         add(1, 3, KINDS, 0)
         add(1, 3, KINDS, 2)
-        add(1, 4, ('not', 'xor', 'id'), None)
+        add(1, 4, ('not', 'xor'), None)
     # deep acyclic ladders / diamonds: many reconvergent paths, never unstable
     for n in (5, 6, 8):
         for kind in ('xor', 'and'):
@@ -349,6 +349,8 @@ def run_config(cfg):
     if m > 4:
         perms = [tuple(range(m)), tuple(reversed(range(m))),
                  tuple(list(range(1, m, 2)) + list(range(0, m, 2)))]
+    elif m == 4:
+        perms = perms[::5] + [perms[-1]]      # 6 of the 24 orders (first, last and four between)
     for perm in perms:
         for start in vectors:
             targets = [v for v in vectors if v != start]
